@@ -127,7 +127,8 @@ class ExprMixin:
             yield st, self.module_attr(st, o.ty[7:], attr, cx)
             return
         attr = mangle(cx.cls, attr)
-        if o.ty == "cls" and attr == "__name__":
+        if attr == "__name__" and o.e is not None and ((o.ty or "").startswith("cls") or (
+                not o.ty and self.o.spec_depth == 0 and self.o.entails(st, V.is_cls(o.e), cheap=True))):
             yield st, self.o.str_(w.fun("class_name", w.Cls, "str")(V.c(o.e)))
             return
         if o.ty and o.ty.startswith("cls:"):
@@ -472,6 +473,23 @@ class ExprMixin:
             yield from self.raise_new(st, "TypeError")
             return
         raise Unsupported("binary operator %s on %s, %s" % (type(op).__name__, lt, rt))
+
+    def seq_concat(self, st, l, r, cx):
+        """list + list / tuple + tuple: a new sequence (element-wise facts as a schema)"""
+        from .builtins_spec import _concat_into
+        o = self.o
+        kl, kr = o.refcls(st, l, ("list", "tuple")), o.refcls(st, r, ("list", "tuple"))
+        if not kl or kl != kr:
+            raise Unsupported("concatenation of %s and %s" % (l.ty, r.ty))
+        c0 = l.ty[4:] if l.ty and l.ty.startswith("ref:") else kl
+        if c0 in self.src.classes and self.src.find_method(c0, "__add__"):
+            yield from self.call_method(st, l, c0, "__add__", [r], {}, cx)
+            return
+        st = st.clone()
+        a, b = o.r(l), o.r(r)
+        t = st.new_ref(kl)
+        _concat_into(self, st, t, st.rd("$items", a), o.seq_len(st, a), st.rd("$items", b), o.seq_len(st, b))
+        yield st, o.ref(t, kl)
 
     def str_format(self, st, fmt, arg, cx):
         """`fmt % arg`: exact for literal formats over %s of strings; other conversions are the
